@@ -1,6 +1,6 @@
 (* C01 — property theorems only (each closed by `exact <lemma>` and followed by Print Assumptions). *)
 From Coq Require Import List NArith ZArith Bool Permutation.
-From MW Require Import Common.Str C01.Model C01.Proofs C01.Gen_resolve C01.ProofsGen C01.Passes C01.ProofsPasses C01.ProofsPassesAnalyze.
+From MW Require Import Common.Str C01.Model C01.Proofs C01.Gen_resolve C01.ProofsGen C01.Passes C01.ProofsPasses C01.ProofsPassesAnalyze C01.PassesPre C01.ProofsPassesPre C01.PassesTable C01.ProofsPassesTable.
 Import ListNotations.
 
 (* resolve_entity (util.py:212) with the except clause read from /repo on this run: for EVERY int() (any function
@@ -103,3 +103,62 @@ Example C01_passes_examples :
      = POk ([Tok (KSect 2) 0%N [Tok (KNode false) 0%N [Tok KOther 2%N []]; Tok (KNode false) 0%N [Tok KOther 4%N []]]], 4).
 Proof. exact passes_examples. Qed.
 Print Assumptions C01_passes_examples.
+
+(* ------------------------------------------------------------------------------------------------------------------
+   ParsePreformatted.run (core.py:365-385; model in C01/PassesPre.v): for EVERY token list the loop ends within
+   len(tokens) iterations (measure len(tokens) - i) and raises nothing (tokens[start - 1] is always in range). *)
+Theorem C01_ParsePreformatted_total : forall toks,
+  exists r iters, pre_run (pre_fuel toks) toks = POk (r, iters) /\ iters <= 1 * length toks.
+Proof. exact pre_run_total. Qed.
+Print Assumptions C01_ParsePreformatted_total.
+
+(* non-vacuity: two " " lines become one preformatted node in 6 iterations (fuel 7 = pre_fuel); a block node cancels the
+   open line; one unit of fuel less than pre_fuel is not enough *)
+Example C01_ParsePreformatted_examples :
+  pre_run 7 [GTok XPre 1%N []; GTok XOther 2%N []; GTok XNewline 3%N [];
+             GTok XPre 4%N []; GTok XOther 5%N []; GTok XNewline 6%N []]
+  = POk ([GTok XPreformatted 0%N [GTok XOther 2%N []; GTok XNewline 3%N []; GTok XOther 5%N []; GTok XNewline 6%N []]], 6)
+  /\ pre_run 4 [GTok XPre 1%N []; GTok XBlock 2%N []; GTok XNewline 3%N []]
+     = POk ([GTok XPre 1%N []; GTok XBlock 2%N []; GTok XNewline 3%N []], 3)
+  /\ pre_run 3 [GTok XPre 1%N []; GTok XBlock 2%N []; GTok XNewline 3%N []] = PRaise PFuel.
+Proof. exact pre_examples. Qed.
+Print Assumptions C01_ParsePreformatted_examples.
+
+(* ------------------------------------------------------------------------------------------------------------------
+   The table parser (parse_table.py; models in C01/PassesTable.v).  For EVERY token list:
+   TableCellParser.run (l.75-103, make_cell, replace_tablecaption, find_modifier) ends within len(tokens) iterations
+   (measure len(tokens) - index) and raises nothing (tokens[start] is always a cell start token, its text a string). *)
+Theorem C01_TableCellParser_total : forall toks,
+  exists r iters, cell_run (cell_fuel toks) toks = POk (r, iters) /\ iters <= 1 * length toks.
+Proof. exact cell_run_total. Qed.
+Print Assumptions C01_TableCellParser_total.
+
+(* TableRowParser.run (l.183-223) including the nested TableCellParser run on the children of every row *)
+Theorem C01_TableRowParser_total : forall toks,
+  exists r iters, row_run (row_fuel toks) toks = POk (r, iters) /\ iters <= 1 * length toks.
+Proof. exact row_run_total. Qed.
+Print Assumptions C01_TableRowParser_total.
+
+(* TableParser.run (l.303-346): the main loop and `while stack: make_table()` together take at most 2*len(tokens)
+   iterations (measure 2*(len(tokens) - index) + len(stack)); make_table (find_modifier, the nested TableRowParser /
+   TableCellParser runs, find_caption) raises nothing: every stack entry is the position of a table start token *)
+Theorem C01_TableParser_total : forall toks,
+  exists r iters, tab_run (tab_fuel toks) toks = POk (r, iters) /\ iters <= 2 * length toks.
+Proof. exact tab_run_total. Qed.
+Print Assumptions C01_TableParser_total.
+
+(* non-vacuity:  {| NL |- NL | x || y NL  (unclosed)  becomes table(NL, row(NL, cell(x), cell(y, NL))) in 10 iterations with
+   fuel 19 = tab_fuel; "! x |" is a header cell whose modifier part is cut; make_cell on a start token without text
+   does raise in the model (excluded by the invariant of the loop, not by the model) *)
+Example C01_table_examples :
+  tab_run 19 [GTok TBegin 1%N []; GTok TNewline 2%N []; GTok TRow 3%N []; GTok TNewline 4%N [];
+              GTok (TColumn MBar) 5%N []; GTok (TOther false) 6%N []; GTok (TColumn M2Bar) 7%N [];
+              GTok (TOther false) 8%N []; GTok TNewline 9%N []]
+  = POk ([GTok TTable 0%N [GTok TNewline 2%N [];
+            GTok TRowNode 0%N [GTok TNewline 4%N []; GTok (TCell false) 0%N [GTok (TOther false) 6%N []];
+                               GTok (TCell false) 0%N [GTok (TOther false) 8%N []; GTok TNewline 9%N []]]]], 10)
+  /\ cell_run 4 [GTok (TColumn MBang) 1%N []; GTok (TOther false) 2%N []; GTok TBar 3%N []]
+     = POk ([GTok (TCell true) 0%N []], 3)
+  /\ make_cell [GTok TRowNode 1%N []; GTok (TOther false) 2%N []] 0 2 0 false = PRaise PAttr.
+Proof. exact table_examples. Qed.
+Print Assumptions C01_table_examples.
